@@ -175,10 +175,10 @@ CLAIMED = {
   "history, the value an instruction leaves is what the next instruction decodes and what the client deserializer returns; "
   "data_len = discriminant size + serialized size after every write-back; read-only, foreign-owned and closed accounts are never "
   "written; growth beyond the 10 KiB allowance fails with InvalidRealloc and leaves the data untouched. Tie: differential harness "
-  "on native accounts (five borsh types - one, BTreeSet<u8>, with valid but non-canonical stored images, which a read-only instruction must leave byte for byte (C15_noncanonical_image) -, three discriminant widths, 2.6k sequences quick / 150k thorough) and an independent "
+  "on native accounts (six borsh types - one, BTreeSet<u8>, with valid but non-canonical stored images, which a read-only instruction must leave byte for byte (C15_noncanonical_image), one with the all-zero discriminant 0u8 -, three discriminant widths, 2.6k sequences quick / 150k thorough) and an independent "
   "Python borsh predicate.",
   "The borsh implementation of a user type is an oracle (round trip, non-empty encodings), proved for a combinator model of borsh "
-  "and the five harness types and tied to the real crate by the correspondence. Types with an empty encoding are excluded "
+  "and the harness types and tied to the real crate by the correspondence. Types with an empty encoding are excluded "
   "(BorshAccount treats data_len == discriminant size as closed). Found and fixed D6 (write-back serialized the Option wrapper)."),
  "C16": (
   "60 machine-checked theorems (coq/Properties/C16.v, axiom-free): for each of the 36 bound System / SPL Token / ATA "
